@@ -595,6 +595,56 @@ pub fn writer_scripts(
 // ------------------------------------------------------------------------------------
 // lengths x buffer sizes
 
+/// Append sessions on files beyond the usual size boundaries (1 MiB + 5 and 3 MiB): the file is
+/// observed right after the handle was opened, after a flush and after the drop.
+pub fn big_file_sessions(property: &str, backends: &[HB]) -> (u64, Vec<Violation>) {
+    let mut n = 0u64;
+    let mut vio = vec![];
+    for b in backends {
+        for len in [(1usize << 20) + 5, 3usize << 20] {
+            let content = pattern(len);
+            let via_lower = matches!(b, HB::OvLower | HB::OvPhysLower | HB::Ov3Lower);
+            let live = setup(*b, if via_lower { Some(&content) } else { None });
+            let mk = |tail: &str, what: String| Violation {
+                property: property.into(),
+                signature: format!("{}|big-file|{}", b.label(), tail),
+                summary: format!("{} with a {} byte file: {}", b.label(), len, what),
+                replay: json!({"engine": "handle", "kind": "big-file", "backend": b.label(), "len": len}),
+            };
+            if !via_lower {
+                if let Err(e) = PathApi::write_file(&live.file, &content) {
+                    vio.push(mk("write-failed", e.display));
+                    continue;
+                }
+            }
+            let observe = |want: &[u8], when: &str, vio: &mut Vec<Violation>| {
+                match guard(|| (PathApi::read_all(&live.file), PathApi::metadata(&live.file))) {
+                    Ok((Ok(g), Ok(m))) if g == want && m.len == want.len() as u64 => {}
+                    other => vio.push(mk(&format!("differs-{}", when), format!("{}: read / metadata give {:?}, expected {} bytes", when, other.map(|(g, m)| (g.map(|g| g.len()).map_err(|e| e.display), m.map(|m| m.len).map_err(|e| e.display))), want.len()))),
+                }
+            };
+            n += 1;
+            observe(&content, "after-the-write-session", &mut vio);
+            let r = guard(|| -> Result<(), String> {
+                let mut h = live.file.append_file().map_err(|e| e.to_string())?;
+                observe(&content, "after-opening-an-append-handle", &mut vio);
+                h.write_all(b"Z").map_err(|e| e.to_string())?;
+                h.flush().map_err(|e| e.to_string())?;
+                let mut want = content.clone();
+                want.push(b'Z');
+                observe(&want, "after-flush", &mut vio);
+                drop(h);
+                observe(&want, "after-drop", &mut vio);
+                Ok(())
+            });
+            if !matches!(r, Ok(Ok(()))) {
+                vio.push(mk("session-failed", format!("{:?}", r)));
+            }
+        }
+    }
+    (n, dedupe(vio))
+}
+
 /// flag bit in a length given to `lengths_and_buffers`: content ends in zero bytes
 pub const ZEROS: usize = 1 << 40;
 
